@@ -187,6 +187,14 @@ def run_plan(r, w, plan, tags):
         r.count("histories")
         if not check_triplets(r, w, plan, tr_s, "shared-exporter", False, tags):
             return False
+        if name_has_other(w):
+            # and a second long-lived exporter that sees the problems in the opposite order
+            exp2 = w.__dict__.setdefault("_shared_exporter2", TrajectoryExporter(w.D))
+            for ww, pp, label in ((w, w.P, "shared-exporter2"), (w.other, w.P_other, "shared-exporter2-other-problem")):
+                tr2_ = guard(lambda: exp2.parse_plan(pp, action_sequence=list(lines)))
+                r.count("histories")
+                if not check_triplets(r, ww, plan, tr2_, label, False, tags):
+                    return False
     # (c) allow_invalid_actions
     tr3 = guard(lambda: TrajectoryExporter(w.D, allow_invalid_actions=True).parse_plan(w.P, action_sequence=list(lines)))
     r.count("histories")
